@@ -124,3 +124,98 @@ Print Assumptions C15_padding.
 Print Assumptions C15_padding_conditions.
 Print Assumptions C15_neutral_pad_sufficient.
 Print Assumptions C15_dup_pop_is_not_neutral_refuted.
+
+(* ------------------------------------------------------------------------------------------------------------
+   Extension (integer-constant resolution regenerated: Lemmas/ConstsGenLemmas.v about Gen/ConstsGen.v, the translation of utils/analyses.py is_int_push_ins, Teal.get_int_constant, parse_teal.py _fill_intc_bytec_info) *)
+From Coq Require Import String List NArith ZArith Bool Arith.
+From Tealer Require Import Tables Syntax Parse Cfg StackAst Keys KeysGen CfgGen Analysis GraphGen SolverGen Domains ConstsGen CfgLemmas SubLemmas RewriteLemmas CfgGenLemmas LeafPrelude Leaves LeafLemmas AssertedLemmas Instances SolverLemmas Eval Runs Exec SingleLemmas ExecLemmas SolverGenLemmas ExactInstances ConstsGenLemmas.
+
+(* regenerated is_int_push_ins with Teal.get_int_constant equals the model on every instruction the parser can build *)
+Theorem C15_is_int_push_gen_eq :
+      forall (intcs : option (list N)) (bytecs : list string) (op : instr),
+       intck_ok op ->
+       is_int_push_ins_gen
+         (contract_ins {| to_int_constants := consts_of intcs; to_byte_constants := bytecs |} op) =
+       Some (is_int_push_ins intcs op).
+Proof. exact @is_int_push_ins_gen_eq. Qed.
+
+(* on the Teal object the regenerated parse pipeline builds for a parsed contract *)
+Theorem C15_is_int_push_gen_parse_teal :
+      forall (p : prog) (t : teal) (bs : list block) (ih : ins_heap) (tl : tealobj) (op : instr),
+       parse_teal p = Ok t ->
+       build_blocks p = Some bs ->
+       (forall k : nat, k < Datatypes.length p -> ins_attr_bb ih k = bb_of_pos bs k) ->
+       parse_teal_int_constants_gen p ih (seq 0 (Datatypes.length bs)) = Some tl ->
+       intck_ok op -> is_int_push_ins_gen (contract_ins tl op) = Some (is_int_push_ins (t_intcs t) op).
+Proof. exact @is_int_push_ins_gen_parse_teal. Qed.
+
+(* intc k, intc_k and int c read the same constant *)
+Theorem C15_intc_regenerated :
+      forall (cs : list N) (bytecs : list string) (k c : N),
+       nth_error cs (N.to_nat k) = Some c ->
+       is_int_push_ins_gen (contract_ins {| to_int_constants := cs; to_byte_constants := bytecs |} (IIntc k)) =
+       Some (IntNum c) /\
+       ((k <= 3)%N ->
+        is_int_push_ins_gen
+          (contract_ins {| to_int_constants := cs; to_byte_constants := bytecs |} (IIntcK k)) =
+        Some (IntNum c)) /\
+       is_int_push_ins_gen (contract_ins {| to_int_constants := cs; to_byte_constants := bytecs |} (IIntc k)) =
+       is_int_push_ins_gen
+         (contract_ins {| to_int_constants := cs; to_byte_constants := bytecs |} (IInt (IANum c))).
+Proof. exact @C15_intc_regenerated. Qed.
+
+(* pushint and int agree *)
+Theorem C15_pushint_regenerated :
+      forall (tl : tealobj) (a : intarg),
+       is_int_push_ins_gen (contract_ins tl (IPushInt a)) = is_int_push_ins_gen (contract_ins tl (IInt a)).
+Proof. exact @C15_pushint_regenerated. Qed.
+
+(* named constants stay symbolic *)
+Theorem C15_named_constant_regenerated :
+      forall (tl : tealobj) (s : string) (n : N),
+       is_int_push_ins_gen (contract_ins tl (IInt (IAName s))) = Some (IntName s) /\
+       is_int_push_ins_gen (contract_ins tl (IInt (IANum n))) = Some (IntNum n).
+Proof. exact @C15_named_constant_symbolic_regenerated. Qed.
+
+(* the constant block is used exactly when there is one intcblock and it sits in the entry block *)
+Theorem C15_constant_block_regenerated :
+      forall (p : prog) (bs : list block) (ih : ins_heap) (tl : tealobj),
+       build_blocks p = Some bs ->
+       p <> nil ->
+       (forall k : nat, k < Datatypes.length p -> ins_attr_bb ih k = bb_of_pos bs k) ->
+       parse_teal_int_constants_gen p ih (seq 0 (Datatypes.length bs)) = Some tl ->
+       (Datatypes.length (pt_intcblocks p) <> 1 ->
+        forall k : N, is_int_push_ins_gen (contract_ins tl (IIntc k)) = Some IntUnknown) /\
+       (forall (pos : nat) (cs : list N),
+        pt_intcblocks p = (pos, cs) :: nil ->
+        bb_of_pos bs pos <> Some 0 ->
+        forall k : N, is_int_push_ins_gen (contract_ins tl (IIntc k)) = Some IntUnknown) /\
+       (forall (pos : nat) (cs : list N),
+        pt_intcblocks p = (pos, cs) :: nil ->
+        bb_of_pos bs pos = Some 0 ->
+        forall k c : N,
+        nth_error cs (N.to_nat k) = Some c ->
+        is_int_push_ins_gen (contract_ins tl (IIntc k)) = Some (IntNum c)).
+Proof. exact @C15_constant_block_unique_regenerated. Qed.
+
+(* first pass, block construction, pruning and _fill_intc_bytec_info regenerated from the source, composed: the int constants of the model *)
+Theorem C15_int_constants_pipeline :
+      forall (p : prog) (t : teal),
+       parse_teal p = Ok t ->
+       exists (ih : ins_heap) (bh : block_heap) (subs0 : list sub_row) (bh' : block_heap) 
+       (ih' : ins_heap),
+         passes_gen p = Some ih /\
+         build_gen p = Some bh /\
+         prune_unreachable_gen (seq 0 (Datatypes.length bh)) (reachable_of bh subs0)
+           (seq 0 (Datatypes.length p)) bh (bb_assign_bs p ih) = Some (t_retained_ins t, bh', ih') /\
+         option_map to_int_constants (parse_teal_int_constants_gen p ih' (seq 0 (Datatypes.length bh))) =
+         Some (consts_of (t_intcs t)).
+Proof. exact @parse_teal_int_constants_gen_pipeline. Qed.
+
+Print Assumptions C15_is_int_push_gen_eq.
+Print Assumptions C15_is_int_push_gen_parse_teal.
+Print Assumptions C15_intc_regenerated.
+Print Assumptions C15_pushint_regenerated.
+Print Assumptions C15_named_constant_regenerated.
+Print Assumptions C15_constant_block_regenerated.
+Print Assumptions C15_int_constants_pipeline.
